@@ -693,6 +693,38 @@ def coq_case(sc, obs, drop_extreme=False):
         coq_outcome(obs), coq_bool(drop_extreme))
 
 
+def coq_billing_rows(sc, cap):
+    """daily / hourly rows handed to a billing class: the days of the span with the values supplied (month key, length
+    in seconds, sum of the day's values) and what the captured frame carries per day -> term of type brcase"""
+    n = sc["span"]
+    ts = L.day_starts(sc, extra=1)
+    raw = L.usage_cells(sc, n)
+    d0 = L.start_date(sc)
+    seen = {}
+    if cap["has_obs"]:
+        for t, off, o, tp, cov, g, a in expand_segs(cap["segs"]):
+            seen[t] = o
+    else:
+        for t, off, o, tp, cov, g, a in expand_segs(cap["segs"]):
+            seen[t] = None
+    days, obs = [], []
+    for i in range(n):
+        d = d0 + dt.timedelta(days=i)
+        ln = ts[i + 1] - ts[i]
+        v = raw[i]
+        if v is not None:
+            v = Fraction(v) * ((ln // 3600) if sc["meter_source"] == "hourly" else 24) / 24
+            if sc["electric"] and v == 0:
+                v = None
+        days.append("(mkday %s %s %s)" % (zlit(d.year * 12 + d.month), zlit(ln),
+                                          coq_opt(v, lambda q: qlit((q.numerator, q.denominator)))))
+        if ts[i] in seen:
+            obs.append("(Some %s)" % coq_opt(seen[ts[i]], qlit))
+        else:
+            obs.append("None")
+    return "(%s, %s)" % (coq_list(days), coq_list(obs))
+
+
 # ------------------------------------------------------------------ main
 
 def margins(sc, cells, exp):
@@ -751,6 +783,9 @@ def evaluate(sc):
         _, margin = L.extreme_truth(cells)
         drop_extreme = margin is not None and margin <= 1e-6
     term = coq_case(sc, obs, drop_extreme)
+    br_term = None
+    if sc["family"] == "billing" and sc.get("meter_source") and obs["kind"] == "ok" and cap and "error" not in cap:
+        br_term = coq_billing_rows(sc, cap)
     sample = None
     if obs["kind"] == "ok" and cap and "error" not in cap:
         sample = {"scenario": {k: v for k, v in sc.items() if k not in ("usage_missing", "temp_missing", "periods")},
@@ -758,7 +793,7 @@ def evaluate(sc):
                   "counts": cap["counts"], "disqualification": obs["dq"], "warnings": obs["warnings"],
                   "oracle": sorted(exp["dq"])}
     slim = {k: v for k, v in obs.items() if k != "captured"}
-    return {"obs": slim, "fails": fails, "preprocess": why, "term": term, "sample": sample, "dist": dist,
+    return {"obs": slim, "fails": fails, "preprocess": why, "term": term, "br_term": br_term, "sample": sample, "dist": dist,
             "counts": (cap or {}).get("counts"),
             "nontrivial": obs["kind"] == "ok" and any(c["usage"] is not None or c["temp_present"] for c in cells)}
 
@@ -795,7 +830,8 @@ def main():
     run.cov["trusted_base"] += [
         "harness/c10.py, harness/c10lib.py (scenario generator, input builders, capture of the frame handed to the criteria "
         "class by wrapping the three criteria classes' __init__, canonicalisation, literal oracle)",
-        "harness/translate_sufficiency.py (ast extraction of check sequences, thresholds, constructor flags)",
+        "harness/translate_sufficiency.py (ast extraction of check sequences, thresholds, constructor flags, min_count of "
+        "the billing classes' monthly sum)",
         "pandas semantics re-specified in Model/Sufficiency.v (dropna, groupby(month).mean of notna, quantile/median, sum "
         "skipping NaN) - validated by the correspondence only",
     ]
@@ -806,7 +842,7 @@ def main():
         run.cov["translated"] = {k: gen[k] for k in ("baseline", "reporting", "flags", "offcycle_target",
                                                      "min_length_rounding", "min_length_factor", "max_baseline_length",
                                                      "min_fraction_daily_coverage", "span_ignores_usage",
-                                                     "day_sum_rounded", "utc_rule")}
+                                                     "day_sum_rounded", "utc_rule", "billing_month_min_count")}
     except Exception as e:  # fail closed: a source the translator no longer recognises is a broken tie
         run.proof_ok = False
         run.proof_log += "translator failed: %s: %s" % (type(e).__name__, e)
@@ -814,7 +850,8 @@ def main():
         gen = None
     # step 1: theorems
     if gen is not None:
-        run.check_proofs("Properties/C10.v", ["Proofs/SufficiencyProofs.v"], generated=["Generated/SufficiencyGen.v"])
+        run.check_proofs("Properties/C10.v", ["Proofs/SufficiencyProofs.v", "Proofs/BillingRowsProofs.v"],
+                         generated=["Generated/SufficiencyGen.v"])
         run.ensure_models(["Model/SufficiencyRun.v", "Model/CasesLib.v"])
     run.log("theorems checked: %s" % run.proof_ok)
     # step 2: scenarios
@@ -854,7 +891,11 @@ def main():
             part = scenarios[b0:b0 + batch]
             results = pool.map(evaluate, part, chunksize=2)
             terms, kept = [], []
+            br_terms, br_kept = [], []
             for sc, res in zip(part, results):
+                if res.get("br_term"):
+                    br_terms.append(res["br_term"])
+                    br_kept.append(sc)
                 obs = res["obs"]
                 run.count(vlib.sha(sc), res["nontrivial"])
                 for k, v in res["dist"]:
@@ -879,6 +920,18 @@ def main():
                 if res["sample"] is not None:
                     run.sample(res["sample"])
             run.log("%d scenarios executed and judged, %d case terms" % (b0 + len(part), len(terms)))
+            if gen is not None and br_terms:
+                bad = run.coq_cases("billing_rows", IMPORTS + "\nFrom V Require Import Model.BillingRows.", "", br_terms,
+                                    "check_billing_rows", shard=run.n(12, 60), case_type="brcase")
+                if bad is None:
+                    run.proof_ok = False
+                else:
+                    for i in bad:
+                        run.corr_failures.append({"stream": "billing_rows", "case": {"scenario": br_kept[i]},
+                                                  "model": "Model/BillingRows.v spread: monthly total (min_count as in "
+                                                           "the source) spread over the days differs from the frame"})
+            if br_terms:
+                run.log("%d billing-rows cases compared" % len(br_terms))
             if gen is not None and terms:
                 bad = run.coq_cases("dataclass", IMPORTS, "", terms, "check_case", shard=run.n(26, 60), case_type="case")
                 if bad is None:
